@@ -179,9 +179,11 @@ def gen_case(rng, tier, index):
                     v = _vol(rng)
                     if v not in vols:
                         vols.append(v)
+                if rng.random() < 0.25:
+                    vols[rng.randrange(len(vols))] = rng.choice([0.0, 0, 0.004])  # a selected tip that pipettes nothing
                 case["vol"] = vols
             else:
-                case["vol"] = _vol(rng)
+                case["vol"] = _vol(rng) if rng.random() > 0.08 else 0.0
         return case
     ep, dev = rng.choice(AD_EPS)
     if kind == "coll":
@@ -198,7 +200,13 @@ def gen_case(rng, tier, index):
         members = _rand_members(rng, k - 1)
         members.insert(rng.randint(0, k - 1), rng.choice(INVALID + INVALID + INVALID_MORE + [ANY, ANY, ANY]))
         tip = _container(rng, members)
-    return {"ep": ep, "dev": dev, "tip": tip, "n": rng.choice([1, 1, 2, 3]), "vol": _vol(rng), "kind": kind}
+    case = {"ep": ep, "dev": dev, "tip": tip, "n": rng.choice([1, 1, 2, 3]), "vol": _vol(rng), "kind": kind}
+    if isinstance(tip, (list, dict)) and ("__tuple__" in tip if isinstance(tip, dict) else True) and ep != "transfer" and rng.random() < 0.2:
+        # `tip` is documented as an Iterable: a generator / iterator object is legal for entry points that
+        # emit a single record (transfer would have to re-use it for every pair)
+        case["oneshot"] = rng.choice(["iter", "gen"])
+        case["n"] = 1
+    return case
 
 
 # ---------------------------------------------------------------------------------------------
@@ -238,6 +246,13 @@ def _run_ad(ctx, case):
     vol = float(case.get("vol", 10.0))
     kind, mask, nums = _expect(tip)
     coll = _is_coll(tip)
+    if case.get("oneshot") and coll:
+        members_ = list(tip)
+        ctx.count("tip_given_as_one_shot_iterable")
+        coll_len = len(members_)
+        tip_arg = iter(members_) if case["oneshot"] == "iter" else (m for m in members_)
+    else:
+        tip_arg = tip
     ctx.case(case, coll and len(tip) >= 2)
     ctx.count(f"ep:{ep}:{dev}")
     ctx.feature("selection_form", type(tip).__name__ if coll else "bare")
@@ -247,19 +262,19 @@ def _run_ad(ctx, case):
     exc = None
     try:
         if ep == "aspirate_well":
-            wl.aspirate_well("p", 3, vol, tip=tip)
+            wl.aspirate_well("p", 3, vol, tip=tip_arg)
             want = ["A"]
         elif ep == "dispense_well":
-            wl.dispense_well("p", 3, vol, tip=tip)
+            wl.dispense_well("p", 3, vol, tip=tip_arg)
             want = ["D"]
         elif ep == "aspirate":
-            wl.aspirate(_small("p", True), _WELLS[0] if n == 1 else _WELLS[:n], vol, tip=tip)
+            wl.aspirate(_small("p", True), _WELLS[0] if n == 1 else _WELLS[:n], vol, tip=tip_arg)
             want = ["A"] * n
         elif ep == "dispense":
-            wl.dispense(_small("p", False), _WELLS[0] if n == 1 else _WELLS[:n], vol, tip=tip)
+            wl.dispense(_small("p", False), _WELLS[0] if n == 1 else _WELLS[:n], vol, tip=tip_arg)
             want = ["D"] * n
         elif ep == "transfer":
-            wl.transfer(_small("p", True), _WELLS[:n], _small("q", False), list(reversed(_WELLS))[:n], vol, tip=tip)
+            wl.transfer(_small("p", True), _WELLS[:n], _small("q", False), list(reversed(_WELLS))[:n], vol, tip=tip_arg)
             want = ["A", "D"] * n
         else:
             raise ValueError(f"unknown entry point {ep}")
@@ -403,10 +418,10 @@ def _run_evo(ctx, case):
     if ascending and occ == want:
         if isinstance(vol, list):
             ctx.count("evo_per_tip_volumes")
-            good = all(slots[n_ - 1] == Fraction(float(v_)) for n_, v_ in zip(nums, vol))
+            good = all(abs(slots[n_ - 1] - Fraction(float(v_))) <= Fraction(1, 200) for n_, v_ in zip(nums, vol))  # two-decimal rounding
         else:
             ctx.count("evo_scalar_volume")
-            good = all(slots[n_ - 1] == Fraction(float(vol)) for n_ in nums)
+            good = all(abs(slots[n_ - 1] - Fraction(float(vol))) <= Fraction(1, 200) for n_ in nums)
         ctx.check("evo_slot_i_holds_volume_of_tip_i", good, det)
 
 
